@@ -204,6 +204,9 @@ pub struct Item {
     pub src: Src,
     /// bytes are those of this earlier item (same length/entropy), not fresh ones
     pub dup_of: Option<usize>,
+    /// bytes are those of earlier item `a` followed by those of earlier item `b` (`len` is the sum): a content whose
+    /// bytes are the concatenation of two contents inserted one after the other
+    pub cat_of: Option<(usize, usize)>,
 }
 
 #[derive(Clone, Debug)]
@@ -273,6 +276,11 @@ pub fn shannon(data: &[u8]) -> f32 {
 impl ContentCase {
     pub fn bytes_of(&self, i: usize) -> Vec<u8> {
         let it = &self.items[i];
+        if let Some((a, b)) = it.cat_of {
+            let mut v = self.bytes_of(a);
+            v.extend_from_slice(&self.bytes_of(b));
+            return v;
+        }
         let call = it.dup_of.unwrap_or(i);
         gen_bytes(self.seed, call as u64, it.len, it.ent)
     }
@@ -292,6 +300,8 @@ impl ContentCase {
                     && o.src == it.src
                     && o.dup_of.is_none()
                     && it.dup_of.is_none()
+                    && o.cat_of.is_none()
+                    && it.cat_of.is_none()
                 {
                     n += 1
                 } else {
@@ -299,7 +309,7 @@ impl ContentCase {
                 }
             }
             groups.push(json!({"n": n, "len": it.len, "ent": it.ent.as_str(), "hint": it.hint.as_str(),
-                               "src": it.src.to_json(), "dup": it.dup_of}));
+                               "src": it.src.to_json(), "dup": it.dup_of, "cat": it.cat_of.map(|(a, b)| vec![a, b])}));
             i += n;
         }
         json!({"seed": self.seed, "comp": self.comp.to_json(), "cached": self.cached, "groups": groups})
@@ -316,6 +326,7 @@ impl ContentCase {
                     hint: Hint::parse(jstr(g, "hint")),
                     src: Src::parse(g.get("src").unwrap_or(&Value::Null)),
                     dup_of: g.get("dup").and_then(|x| x.as_u64()).map(|x| x as usize),
+                    cat_of: g.get("cat").and_then(|x| x.as_array()).filter(|a| a.len() == 2).map(|a| (a[0].as_u64().unwrap_or(0) as usize, a[1].as_u64().unwrap_or(0) as usize)),
                 });
             }
         }
